@@ -8,7 +8,16 @@ ASPECTS = {'C01': ('actions', 'state'), 'C02': ('offers', 'state', 'actions', 'i
 
 
 def scenarios(seed, tier, failed):
-    for sc in charts.standard_scenarios(seed, tier, with_queries=('C01' != 'C03')):
+    import random
+    rnd = random.Random(seed + 303)
+    for k, sc in enumerate(charts.standard_scenarios(seed, tier, with_queries=('C01' != 'C03'))):
+        if k % 9 == 4:
+            # a state that carries the same __name__ as one of its ancestors (distinct functions)
+            n = len(sc['parent'])
+            pairs = [(s_, a) for s_ in range(n) for a in charts.ancestors(sc['parent'], s_)[1:] if a != -1]
+            if pairs:
+                s_, a = rnd.choice(pairs)
+                sc['same_name_as'] = {str(s_): a}
         if 'C01' == 'C03':
             sc['events'] = []
         yield sc
